@@ -2,6 +2,7 @@ package c14
 
 import (
 	"fmt"
+	"math"
 	"regexp"
 
 	"github.com/ohler55/ojg/jp"
@@ -733,6 +734,13 @@ func runArith(c *core.Ctx, idx *int) {
 			ks = append(ks, fv)
 		}
 		for _, kv := range ks {
+			if f, isF := kv.(float64); isF && (math.IsInf(f, 0) || math.IsNaN(f)) {
+				// the probe constant K is the harness's own device; a non-finite K
+				// (a division by zero in the tree) has no text form, which says
+				// nothing about the tree under test
+				c.Add("arithmetic_trees_with_a_non_finite_value_not_probed", 1)
+				continue
+			}
 			k = 0
 			n := scriptref.B("==", arithNode(s, &k), scriptref.C(kv))
 			els := []any{nil}
